@@ -209,7 +209,7 @@ func Compare(st *Stores, m *Model, ever []chainhash.Hash, sc Scope, rng *rand.Ra
 		}
 	}
 
-	// ---- block locators, structurally
+	// ---- block locators, structurally and exactly
 	loc, err := st.BS.LatestBlockLocator()
 	count("reads_block_LatestBlockLocator", 1)
 	if err != nil {
@@ -279,6 +279,29 @@ func checkLocator(m *Model, loc blockchain.BlockLocator, from uint32) string {
 	}
 	if prevH != 0 {
 		return fmt.Sprintf("ends at height %d, not genesis", prevH)
+	}
+	// Exactly the documented rule (the one btcd and Bitcoin Core use as
+	// well): the start, ten single steps, then the step doubles before
+	// every further entry, clamped to genesis.
+	want := []uint32{from}
+	for h, step := from, uint32(1); h > 0 && len(want) < wire.MaxBlockLocatorsPerMsg; {
+		if len(want) > 10 {
+			step *= 2
+		}
+		if step > h {
+			h = 0
+		} else {
+			h -= step
+		}
+		want = append(want, h)
+	}
+	if len(want) != len(loc) {
+		return fmt.Sprintf("%d entries, the list's locator from height %d has %d", len(loc), from, len(want))
+	}
+	for i, hp := range loc {
+		if h, _ := m.HeightOf(*hp); h != want[i] {
+			return fmt.Sprintf("entry %d is height %d, the list's locator from height %d has height %d there", i, h, from, want[i])
+		}
 	}
 	return ""
 }
